@@ -6,6 +6,30 @@ HERE = os.path.dirname(os.path.dirname(os.path.abspath(__file__)))
 
 # id -> (technique, level text, level note, design ref)
 BUILT = {
+    "C02": (
+        "bounded exhaustive enumeration of reference-signed requests and their wire spellings against the real entry point",
+        "An independent SigV4 reference signer (computing the canonical form from decoded data, never from the wire) signs every logical request of six product sweeps (paths x spellings x carriers x modes; query lists x spellings; header sets x Authorization layouts; bodies x content types x options x tokens x methods; clock offsets x renderings; rich combinations) and the real sigv4_validate_request must accept each one and ask the scripted provider exactly once with the right arguments. Every case is also judged by the reference verifier, which must agree with the reference signer. Exhaustive within the listed alphabets and bounds.",
+        "Trusted: reference signer/verifier (pinned to 26 AWS vectors at start-up). Known finding path-plus-as-space is matched narrowly and reported as KNOWN-FINDING. Bytes >= 0x80 can only be sent as escapes (http::Uri). Lists of more than 3 parameters / paths of more than 3 segments are outside the bound.",
+        "DESIGN.md §4 C02",
+    ),
+    "C06": (
+        "exhaustive enumeration of secrets, capacities, dates and scopes on the real key types against a reference HMAC chain",
+        "Every secret length 0..140 in four fills against nine capacities (accept iff it fits, never a panic); for every accepted length the four chain keys, the read-back and all six shortcut derivations are compared with an RFC-2104 HMAC chain written independently, over special dates, 36 region/service pairs and every calendar date of 2015-2016 (quick) or 0001-9999 (thorough).",
+        "Trusted: sha2's SHA-256 compression function (shared with the crate) and the reference HMAC construction (pinned by RFC 4231 and the AWS documentation example).",
+        "DESIGN.md §4 C06",
+    ),
+    "C10": (
+        "bounded exhaustive enumeration of query strings, permutations and spellings on the real canonicaliser, plus exhaustion of hash-map iteration orders",
+        "Every ordered list of up to 3 (quick) / 4 (thorough) parameters over 10 names x 6 values (prefix-related names, characters sorting below '=', the signature parameter in two spellings), every combination of five spellings per element, '&&' noise, every byte in every spelling and every malformed escape is canonicalised by the real code and compared with the reference string computed from the logical multiset. Process-level randomness is owned by rebuilding the crate's own HashMap until every iteration order of its keys has been witnessed (and in fresh threads and processes) with identical output.",
+        "Trusted: reference canonical query (sort by encoded name then value). Query strings are &str, so raw bytes >= 0x80 occur only inside valid UTF-8 or as escapes.",
+        "DESIGN.md §4 C10",
+    ),
+    "C16": (
+        "exhaustive enumeration of timestamp strings (field sweeps, offsets, separators, edit distance 1) against a reference ISO-8601 parser",
+        "Every two-digit value of every field, every day of every month of four years, all separator combinations, every offset hh x mm, fractions of 0-12 digits and every string at edit distance 1 from six bases are parsed by the real code through the unstable API (instant and string-to-sign line compared to the nanosecond with a hand-written strict parser) and sent end to end on both carriers. Exhaustive over that corpus.",
+        "Trusted: the reference parser and its three-valued answer; zones the statement leaves open (mixed separators, lower-case designators, second 60, offset hours 15-23, year 0000) are executed but only their value, not their acceptance, is judged.",
+        "DESIGN.md §4 C16",
+    ),
     "C09": (
         "bounded exhaustive enumeration of path strings on the real canonicaliser against a reference normal form",
         "Every path of up to 5 (quick) / 6 (thorough) segments over a 16-symbol segment alphabet (dots, escaped dots, escaped slash, empty, bad escapes, '+', '*', '~'), with and without trailing slash, in both modes, plus every byte in every spelling and every two-character escape, is run through the real canonicalize_uri_path and compared with an independently written reference normal form; idempotence is checked on every accepted path and all <=3-segment paths are also signed by the reference signer and validated end to end. This is exhaustive within the stated alphabet and bound, which is the right level for a pure string function whose defects are single misclassified bytes or segment interactions of depth <= 3.",
